@@ -93,6 +93,9 @@ def on_cycle(n, edges):
 # ---------------------------------------------------------------------------------------------------------------
 # containment
 
+CONFUSABLE = [("A", "B"), ("C", "D"), ("A::BC", "D"), ("C", "DA"), ("AB", "C"), ("A", "BA")]
+
+
 def containment_program(n, edges, kinds, naming=None):
     """edges: list of (src, dst, wrapper_index). naming: node -> (module, identifier); by default everything is M::N<i>.
     Returns (text | [texts], fields) with fields[(scoped src, field_name)] = (type_text, scoped dst, kind, (file index, row)).
@@ -303,6 +306,17 @@ def run_shard(ctx, spec):
                 n = rng.choice([2, 3])
             m = rng.randint(1, int(1.6 * n))
             edges = [(rng.randrange(n), rng.randrange(n), rng.randrange(len(WRAPPERS))) for _ in range(m)]
+            if ci % 4 == 1:
+                # scoped names that run into one another when they are joined without a separator, sorted, or cut at "::"
+                # ({A::B, C::D} vs {A::BC::D}): whatever identifies a cycle by a string built from its members confuses two cycles
+                n = rng.randint(3, len(CONFUSABLE))
+                naming = lambda i: CONFUSABLE[i]
+                m = rng.randint(1, n)
+                edges = [(rng.randrange(n), rng.randrange(n), rng.randrange(len(WRAPPERS))) for _ in range(m)]
+                if rng.random() < 0.6:
+                    edges += [(0, 1, 0), (1, 0, 0), (2, 2, rng.randrange(len(WRAPPERS)))]
+                    rng.shuffle(edges)
+                ctx.stats["containment_confusable_names"] += 1
             kinds = [rng.choice(KINDS) for _ in range(n)]
             texts, fields = containment_program(n, edges, kinds, naming)
             if rng.random() < 0.5:
@@ -365,7 +379,7 @@ def run_shard(ctx, spec):
         rng = ctx.rng("aa/%d" % idx)
         n = 4
         forms = ["A{j}", "Sequence<A{j}>", "Dictionary<bool, A{j}>", "Result<A{j}, bool>", "Sequence<Dictionary<string, A{j}?>>",
-                 "Result<bool, Sequence<A{j}>>"]
+                 "Result<bool, Sequence<A{j}>>", "Dictionary<A{j}, bool>", "Sequence<Dictionary<A{j}, string>>", "Dictionary<A{j}, A{j}>"]
         items = []
         for _ in range(count):
             targets = tuple(rng.randrange(n + 1) for _ in range(n))
@@ -409,6 +423,9 @@ def run_shard(ctx, spec):
         ctx.stats["inheritance_graphs"] += len(items)
 
 
+KEY_CODES = {"E003", "E004", "E005", "E006"}
+
+
 def judge_alias(ctx, text, targets, resp):
     replay = {"kind": "library", "call": "compile_from_strings", "files": [text], "family": "alias"}
     if "died" in resp or resp.get("panic"):
@@ -431,6 +448,9 @@ def judge_alias(ctx, text, targets, resp):
     replay["observed"] = [d["code"] + ": " + d["message"] for d in resp["diags"]][:8]
     if not looping:
         ctx.stats["alias_acyclic"] += 1
+        if errors and "Dictionary<A" in text and set(d["code"] for d in errors) <= KEY_CODES:
+            ctx.stats["alias_acyclic_with_illegal_key"] += 1    # an alias in key position may name an illegal key type: not this check's business
+            return
         if errors:
             ctx.violate("alias-acyclic-rejected", "acyclic alias graph %r rejected: %s" % (targets, errors[0]["message"]), replay)
         return
